@@ -2,7 +2,7 @@ import itertools
 import vf, repairgen
 def shapes(tier):
     if tier == 'quick':
-        return [(['CHGbad', 'BLK'], 2), (['REPbad', 'BLK'], 2), (['BLKbad', 'CHG'], 2), (['BLKbad', 'DEL'], 1), (['BLKbad', 'REP'], 2), (['CHGbad', 'BLKbad'], 2), (['DEL', 'CHGbad'], 2), (['REP', 'CHGbad'], 2), (['BLKbad', 'BLKbad', 'BLKbad'], 2)]
+        return [(['CHGbad', 'BLK'], 2), (['REPbad', 'BLK'], 2), (['BLKbad', 'CHG'], 1), (['BLKbad', 'DEL'], 1), (['BLKbad', 'REP'], 2), (['CHGbad', 'BLKbad'], 1), (['DEL', 'CHGbad'], 2), (['REP', 'CHGbad'], 2), (['BLKbad', 'BLKbad', 'BLKbad'], 2)]
     S = []
     kinds = ['BLK', 'BLKbad', 'REP', 'REPbad', 'CHG', 'CHGbad', 'DEL', 'EMPTY']
     for a, b in itertools.product(kinds, kinds):
